@@ -46,13 +46,34 @@ def body(S, t, part):
     m.events.add_handler("ev_%s_inactive" % short, lambda **kwargs: evs.__setitem__(0, evs[0] + 1))
     sw.add_handler(lambda: untimed.__setitem__(1, untimed[1] + 1), state=1)
     sw.add_handler(lambda: untimed.__setitem__(0, untimed[0] + 1), state=0)
-    cbs = {"A": (lambda: fired["A"].append(t.loop.time())), "B": (lambda: fired["B"].append(t.loop.time())),
-           "C": (lambda: fired["C"].append(t.loop.time()))}
+    removed = set()          # handlers that are removed right now: must never be invoked
+    by_callback = set()      # ... those removed from inside another timed handler's callback
+    late_calls = []
+    cbs = {}
+
+    def mk(k):
+        def cb():
+            if k in removed:
+                late_calls.append((k, t.loop.time()))
+            fired[k].append(t.loop.time())
+            if part.get("remover") == k:
+                for v in part["victims"]:
+                    if v in reg_at and v not in removed:
+                        sw.remove_handler(cbs[v], state=hstate[v], ms=hold[v])
+                        removed.add(v)
+                        by_callback.add(v)
+                        rem_at[v] = t.loop.time()
+        return cb
+    for k in "ABC":
+        cbs[k] = mk(k)
     hstate = {k: (1 if S.bool("hstate_" + k) else 0) for k in ("A", "B", "C") if k in seq}
     if part.get("same_state"):
         for k in hstate:
             hstate[k] = 1
     hold = {k: S.real("hold_ms_" + k, 1, 3000) for k in ("A", "B", "C") if k in seq}
+    if part.get("same_hold"):
+        for k in hold:
+            hold[k] = hold["A"]
     reg_at, rem_at = {}, {}
     # reference timeline: list of (time, new logical state) of ACTUAL changes; initial state 0 since "for ever"
     changes = []
@@ -85,8 +106,10 @@ def body(S, t, part):
             reg_at[a] = now
         elif a in "DE":
             k = "A" if a == "D" else "B"
-            sw.remove_handler(cbs[k], state=hstate[k], ms=hold[k])
-            rem_at[k] = now
+            if k not in removed:
+                sw.remove_handler(cbs[k], state=hstate[k], ms=hold[k])
+                removed.add(k)
+                rem_at[k] = now
     t.advance_time_and_run(6)
     end = t.loop.time()
     m.events.process_event_queue()
@@ -95,9 +118,13 @@ def body(S, t, part):
         raise Violation("untimed-handler-once-per-change", "_call_handlers", "calls %s expected %s" % (untimed, exp_untimed))
     if evs != exp_untimed:
         raise Violation("configured-events-once-per-change", "Switch._post_events", "events %s expected %s" % (evs, exp_untimed))
+    if late_calls:
+        raise Violation("removed-handler-never-fires", "_process_active_timed_switches", "handler %s invoked at +%s after it had been removed at +%s%s" % (
+            late_calls[0][0], late_calls[0][1] - t0, rem_at[late_calls[0][0]] - t0, " (from the callback of a handler due at the same time)" if late_calls[0][0] in by_callback else ""))
     entered = False
     for k in hstate:
         expected = []
+        tie = False
         # intervals during which the switch is in hstate[k]
         ivs = []
         if hstate[k] == initial:
@@ -112,11 +139,18 @@ def body(S, t, part):
             dl = c + hold[k] / 1000.0
             S.assume(dl != e)
             S.assume(dl != reg_at[k])
-            if k in rem_at:
+            if k in rem_at and k not in by_callback:
                 S.assume(dl != rem_at[k])
+            if k in by_callback and dl == rem_at[k]:
+                # removed by a callback that is due at the very same instant: fires or not depending on which one comes first;
+                # the late_calls check above has already made sure it was not invoked after the removal
+                tie = dl < e and reg_at[k] < dl
+                continue
             if dl < e and reg_at[k] < dl and (k not in rem_at or rem_at[k] > dl):
                 expected.append(dl)
         got = fired[k]
+        if tie:
+            got = [g for g in got if g != rem_at[k]]
         if len(got) != len(expected):
             raise Violation("timed-handler-fires-iff-held", "add_switch_handler_obj" if len(got) > len(expected) else "_process_active_timed_switches",
                             "handler %s (state %s, hold %s ms, registered at +%s, removed at %s) fired at %s expected %s; changes %s" % (
@@ -238,11 +272,15 @@ def scenarios(tier):
     if tier == "quick":
         parts = [p for p in parts if p["switch"] == "s_no" or p["seq"] in ("RARR", "RRAD", "ARDR", "ABRR")]
         parts.append(dict(switch="s_no", seq="ABCR", same_state=True))
+        parts.append(dict(switch="s_no", seq="ABCR", same_state=True, same_hold=True, remover="A", victims=["B"]))
+        parts.append(dict(switch="s_no", seq="ABCR", same_state=True, remover="B", victims=["A", "C"]))
         parts.append(dict(switch="s_nc", seq="RRR", sym_logical=True))
         parts.append(dict(switch="s_no", seq="RRR", sym_logical=True))
     else:
         parts += [dict(switch=sw, seq=q, same_state=True) for sw in ("s_no", "s_nc") for q in ("ABCRR", "ABRCR", "RABCR")]
         parts += [dict(switch=sw, seq=q, sym_logical=True) for sw in ("s_no", "s_nc") for q in ("RRRR", "RARR", "ARRD")]
+        parts += [dict(switch=sw, seq=q, same_state=True, same_hold=sh, remover=r, victims=[v for v in "ABC" if v != r])
+                  for sw in ("s_no", "s_nc") for q in ("ABCR", "ABCRR") for sh in (True, False) for r in "AB"]
     wparts = [dict(switch="s_timed_ev", n=3 if tier == "quick" else 4), dict(switch="s_win", n=3 if tier == "quick" else 4)]
     return [Scenario("timeline", setup, body, parts, teardown=teardown, part_budget=70 if tier == "quick" else 300, per_path_timeout=30),
             Scenario("configured_events", setup, body_window, wparts, teardown=teardown, part_budget=70 if tier == "quick" else 300, per_path_timeout=30)]
